@@ -194,6 +194,30 @@ def rows_body(cols, rows_bytes):
     return out
 
 
+def sentinels(repo):
+    """Error-return sentinels declared in the Cython sources (`cdef ... except ?0xDEAD`): a data value equal to the sentinel
+    must still decode (the `?` makes Cython check PyErr_Occurred).  Read from the working tree on every run."""
+    import glob, re
+    vals = set()
+    for f in glob.glob(os.path.join(repo, 'cassandra', '*.pyx')) + glob.glob(os.path.join(repo, 'cassandra', '*.pxd')):
+        for m in re.finditer(r'\bexcept\s*\??\s*(-?0[xX][0-9a-fA-F]+|-?\d+)\s*:', open(f).read()):
+            vals.add(int(m.group(1), 0))
+    return sorted(v for v in vals if 1 < v < (1 << 20))
+
+
+def run_worker_isolating(ctx, pythonpath, cases, tag, depth=0):
+    """run_worker, but a build that kills the interpreter (segfault, abort) on some case does not take the check down:
+    the batch is bisected until the crashing case is alone; its result is ['crash', detail]."""
+    try:
+        return run_worker(ctx, pythonpath, cases, '%s_%d_%d' % (tag, depth, len(cases)))['results']
+    except (RuntimeError, subprocess.TimeoutExpired) as e:
+        if len(cases) == 1:
+            return [['crash', str(e)[-160:]]]
+        h = len(cases) // 2
+        return run_worker_isolating(ctx, pythonpath, cases[:h], tag + 'a', depth + 1) + \
+            run_worker_isolating(ctx, pythonpath, cases[h:], tag + 'b', depth + 1)
+
+
 def run_worker(ctx, pythonpath, cases, tag):
     inp = os.path.join(ctx.scratch, 'cases_%s.json' % tag)
     outp = os.path.join(ctx.scratch, 'out_%s.json' % tag)
@@ -243,6 +267,16 @@ def make_cases(ctx):
             ctx.count('generator_skipped', type(e).__name__)
             continue
         cases.append({'kind': 'rows', 'body': rows_body(cols, rows).hex(), 'pv': pv, 'cols': [repr(c) for c in cols]})
+    # lengths and counts equal to (and next to) every error-return sentinel of the Cython readers, for both row parsers
+    for S in sentinels(core.REPO):
+        for n in (S - 1, S, S + 1):
+            for handler in ('list', 'lazy'):
+                cell = bytes((i * 7 + n) & 0xff for i in range(n))
+                cases.append({'kind': 'rows', 'body': rows_body(['blob', 'int'], [[cell, encode(T, 'int', 7, 4)], [None, None]]).hex(), 'pv': 4,
+                              'cols': ['blob', 'int'], 'handler': handler, 'sentinel': 'cell-length=%d' % n})
+                cases.append({'kind': 'rows', 'body': rows_body(['int'], [[None if i % 3 else encode(T, 'int', i, 4)] for i in range(n)]).hex(), 'pv': 4,
+                              'cols': ['int'], 'handler': handler, 'digest_rows': True, 'sentinel': 'row-count=%d' % n})
+        ctx.count('sentinel', hex(S))
     try:
         from cassandra.policies import ColDesc
         from cassandra.column_encryption.policies import AES256ColumnEncryptionPolicy
@@ -284,9 +318,12 @@ def run(ctx):
     ctx.extra['build_cached'] = cached
     ctx.trust('standalone extension build (lib/vf/cybuild.py): extension list read from setup.py by AST; Cython %s + cc' % _cyver())
     cases = make_cases(ctx)
-    pure = run_worker(ctx, core.REPO, cases, 'pure')
-    comp = run_worker(ctx, built, cases, 'compiled')
+    probe = cases[:1]
+    pure = run_worker(ctx, core.REPO, probe, 'pure_probe')
+    comp = run_worker(ctx, built, probe, 'compiled_probe')
     ctx.extra['builds'] = {'pure': pure['build'], 'compiled': comp['build']}
+    pure['results'] = run_worker_isolating(ctx, core.REPO, cases, 'pure')
+    comp['results'] = run_worker_isolating(ctx, built, cases, 'compiled')
     if pure['build']['have_cython'] or not comp['build']['have_cython'] or 'cmurmur3' not in comp['build']['murmur3']:
         ctx.proof_broken.append(('build-identity', 'builds are not (pure, compiled): %r' % (ctx.extra['builds'],)))
     coq_cases, coq_meta = [], []
@@ -302,6 +339,8 @@ def run(ctx):
                 key = 'cython_utils.datetime_from_timestamp.differs' + ('.negative' if c['seconds'] < 0 else '')
             elif c['kind'] == 'value':
                 key = 'compiled-cqltypes.from_binary.differs'
+            elif c.get('sentinel'):
+                key = 'row-parser.%s.sentinel-%s' % ('crash' if b and b[0] == 'crash' else 'differs', c['sentinel'].split('=')[0])
             elif c['kind'] == 'ce_rows':
                 key = 'row-parser.differs.encrypted-column' + ('.null-cell' if c.get('has_null_encrypted') else '')
             else:
